@@ -86,7 +86,7 @@ def gen_envelope(rng, big):
     return dict(kind="envelope", fs=fs, nxseg=nxseg, fn=fn, xi=xi, phi=phi.tolist(),
                 eps_rel=float(10.0 ** rng.uniform(-12, -7)), gain=float(10.0 ** rng.uniform(-8, 8)),
                 DF2=float(bw * rng.choice([4.0, 4.5, 6.0, 10.0, 20.0, 40.0])), DF1=float(bw * rng.choice([0.5, 1.0, 2.0])),
-                sel=float(fn + bw * rng.uniform(-0.45, 0.45)), layout=str(rng.choice(LAYOUTS)),
+                sel=float(fn + bw * rng.uniform(-0.45, 0.45)), layout=str(rng.choice(LAYOUTS)), readonly=RO_FORMS[int(rng.integers(0, 3))],
                 c=float(rng.choice([2.0 ** int(rng.integers(-40, 41)), 10.0 ** rng.uniform(-12, 12), 3.0, 1e-3, 7e5])))
 
 
@@ -118,7 +118,8 @@ def special_shape_points(thorough):
             bw = 2 * xi * fn
             out.append(dict(kind="envelope-shape", fs=fs, nxseg=nxseg, fn=fn, xi=xi, phi=list(phi), eps_rel=(1e-10, 1e-8, 1e-12)[(i + j) % 3],
                             gain=(1.0, 1e-5, 1e4)[(i + j) % 3], DF2=bw * (4.0, 8.0)[(i + j) % 2], DF1=bw, sel=fn + bw * (0.2, -0.3, 0.0)[(i + j) % 3],
-                            c=(7.0, 2.0 ** -30, 1e6)[(i + j) % 3], scale_test=bool(thorough or i % 3 == 0), layout=LAYOUTS[(i + j) % 3]))
+                            c=(7.0, 2.0 ** -30, 1e6)[(i + j) % 3], scale_test=bool(thorough or i % 3 == 0), layout=LAYOUTS[(i + j) % 3],
+                            readonly=(None, "flag", None, "broadcast", "flag", "memmap")[(i + 2 * j) % 6]))
     return out
 
 
@@ -148,7 +149,7 @@ def corner_points(thorough):
                                 eps_rel=(1e-10, 1e-8, 1e-12)[(i + j + e) % 3], gain=(1.0, 1e-6, 1e5)[(i + e) % 3],
                                 DF2=bw * (4.0, 10.0, 6.0)[(i + j + e) % 3], DF1=bw, sel=fn + bw * (0.3, -0.4, 0.1)[(i + e) % 3],
                                 c=(1000.0, 2.0 ** -20, 3.0)[(j + e) % 3], scale_test=bool(thorough or (i + j + e) % 4 == 0),
-                                layout=LAYOUTS[(i + 2 * j + e) % 3]))
+                                layout=LAYOUTS[(i + 2 * j + e) % 3], readonly=RO_FORMS[(i + j + 2 * e) % 3]))
     return out
 
 
@@ -169,6 +170,31 @@ def lay_out(Sy, layout):
     return np.ascontiguousarray(Sy)
 
 
+RO_FORMS = (None, "flag", "broadcast")
+
+
+def present(a, ro, workdir=None):
+    """The same array handed over read-only: a view with flags.writeable = False (same strides), np.broadcast_to, or a
+    memory map opened with mmap_mode="r".  The pristine code never writes to its inputs."""
+    if not ro:
+        return a
+    if ro == "broadcast":
+        v = np.broadcast_to(a, a.shape)
+    elif ro == "memmap" and workdir is not None:
+        path = os.path.join(workdir, "ro_%d.npy" % id(a))
+        np.save(path, np.ascontiguousarray(a))
+        v = np.load(path, mmap_mode="r")
+    else:
+        v = a.view()
+        v.setflags(write=False)
+    assert not v.flags.writeable
+    return v
+
+
+def ro_note(case):
+    return " (Sy and freq handed over read-only: %s)" % case["readonly"] if case.get("readonly") else ""
+
+
 class Frozen:
     """Input-immutability clause: the arrays handed to the implementation are bit-equal after the call."""
 
@@ -181,7 +207,7 @@ class Frozen:
 
     def restore(self):
         for k, v in self.arrs.items():
-            if isinstance(v, np.ndarray):
+            if isinstance(v, np.ndarray) and v.flags.writeable:
                 v[...] = self.snap[k][0]
 
 
@@ -192,7 +218,8 @@ def analyse(ctx, case, Sy, f, spec, method, judge=True):
     sel = [spec["sel"]]
     fr = Frozen(Sy=Sy, freq=f, sel_freq=np.array(sel))
     try:
-        Fn, Xi, Phi, _ = fdd.EFDD_mpe(Sy, f, 1.0 / fs, sel, "per", method=method, DF1=spec["DF1"], DF2=spec["DF2"])
+        Fn, Xi, Phi, _ = fdd.EFDD_mpe(present(Sy, case.get("readonly"), ctx.work), present(f, case.get("readonly"), ctx.work), 1.0 / fs, sel, "per",
+                                      method=method, DF1=spec["DF1"], DF2=spec["DF2"])
     except Exception as e:  # noqa: BLE001
         Fn = e
     ch = fr.changed() + ([] if sel == [spec["sel"]] else ["sel_freq"])
@@ -201,7 +228,8 @@ def analyse(ctx, case, Sy, f, spec, method, judge=True):
                  key="C07:%s:mutates-input" % method)
         fr.restore()
     if isinstance(Fn, Exception):
-        ctx.fail("oracle", "%s raised %s inside the property's envelope" % (method, type(Fn).__name__), case, key="C07:%s:raises" % method)
+        ctx.fail("oracle", "%s raised %s: %s - inside the property's envelope%s" % (method, type(Fn).__name__, str(Fn)[:80], ro_note(case)), case,
+                 key="C07:%s:raises" % method)
         return None
     Fn, Xi = float(np.ravel(Fn)[0]), float(np.ravel(Xi)[0])
     if not judge:
@@ -232,6 +260,7 @@ def oracle_case(ctx, spec, methods=("EFDD", "FSDD")):
         ctx.count(case, nontrivial=True)
         ctx.hist("oracle nxseg", nxseg)
         ctx.hist("oracle layout", layout)
+        ctx.hist("oracle read-only", str(spec.get("readonly")))
         ctx.hist("oracle log10 fs", int(np.floor(np.log10(fs))))
         r = analyse(ctx, case, Sy, f, spec, method)
         if r is None or not spec.get("scale_test", True):
@@ -259,7 +288,8 @@ def oracle_sequence(ctx, seq):
         work = lay_out(np.zeros_like(built[0][1]), layout)
         for step, i in enumerate(order):
             work[...] = built[i][1]  # refill the same object in place
-            case = dict(kind="sequence", step=step, order=list(order[: step + 1]), layout=layout, method=method, specs=specs, judged=i)
+            case = dict(kind="sequence", step=step, order=list(order[: step + 1]), layout=layout, method=method, specs=specs, judged=i,
+                        readonly="flag" if step % 2 else None)
             ctx.count(case, nontrivial=step > 0)
             ctx.hist("oracle sequence step", step)
             analyse(ctx, case, work, built[i][0], specs[i], method)
@@ -273,7 +303,8 @@ def call_mpe(ctx, case, Sy, f, spec, method, sel):
     sel_copy = np.array(sel, copy=True)
     fr = Frozen(Sy=Sy, freq=f)
     try:
-        Fn, Xi, Phi, _ = fdd.EFDD_mpe(Sy, f, 1.0 / fs, sel, "per", method=method, DF1=spec["DF1"], DF2=spec["DF2"])
+        Fn, Xi, Phi, _ = fdd.EFDD_mpe(present(Sy, case.get("readonly"), ctx.work), present(f, case.get("readonly"), ctx.work), 1.0 / fs, sel, "per",
+                                      method=method, DF1=spec["DF1"], DF2=spec["DF2"])
     except Exception as e:  # noqa: BLE001
         Fn = e
     ch = fr.changed() + ([] if np.array_equal(np.array(sel), sel_copy) and np.array(sel).dtype == sel_copy.dtype else ["sel_freq"])
@@ -281,7 +312,8 @@ def call_mpe(ctx, case, Sy, f, spec, method, sel):
         ctx.fail("oracle", "fdd.EFDD_mpe(%s) modifies its input %s" % (method, "/".join(ch)), case, key="C07:%s:mutates-input" % method)
         fr.restore()
     if isinstance(Fn, Exception):
-        ctx.fail("oracle", "%s raised %s inside the property's envelope (sel_freq = %r)" % (method, type(Fn).__name__, sel), case, key="C07:%s:raises" % method)
+        ctx.fail("oracle", "%s raised %s: %s - inside the property's envelope (sel_freq = %r)%s" % (method, type(Fn).__name__, str(Fn)[:80], sel, ro_note(case)),
+                 case, key="C07:%s:raises" % method)
         return None
     Fn, Xi = np.ravel(np.asarray(Fn, float)), np.ravel(np.asarray(Xi, float))
     if len(Fn) != len(sel_copy) or len(Xi) != len(sel_copy) or np.shape(Phi) != (len(phi), len(sel_copy)):
@@ -354,9 +386,9 @@ def fixed_picks(thorough):
     """Deterministic multi-pick and integer-pick cases present in both tiers."""
     multi = [dict(fs=100.0, nxseg=2048, fn=12.3, xi=0.03, phi=[1.0, -0.5, 0.25], eps_rel=1e-10, gain=1.0, DF2=3.0, DF1=0.738, sel=12.25, offsets_lines=[0, 2]),
              dict(fs=1.0, nxseg=4000, fn=0.21, xi=0.045, phi=[0.5, 1.0], eps_rel=1e-9, gain=1e-4, DF2=0.08, DF1=0.0189, sel=0.2095, offsets_lines=[0, 3, -2],
-                  layout="F")]
+                  layout="F", readonly="flag")]
     ints = [dict(fs=50.0, nxseg=2048, fn=2.0, xi=0.04, phi=[1.0, 0.5, -0.25], eps_rel=1e-10, gain=1.0, DF2=0.96, DF1=0.16),
-            dict(fs=20.0, nxseg=2048, fn=3.0, xi=0.02, phi=[-0.5, 1.0], eps_rel=1e-9, gain=25.0, DF2=0.5, DF1=0.12)]
+            dict(fs=20.0, nxseg=2048, fn=3.0, xi=0.02, phi=[-0.5, 1.0], eps_rel=1e-9, gain=25.0, DF2=0.5, DF1=0.12, readonly="broadcast")]
     if thorough:
         multi += [dict(fs=256.0, nxseg=1536, fn=30.0, xi=0.02, phi=[1.0, 0.25, 0.5, -0.75], eps_rel=1e-11, gain=1e3, DF2=7.0, DF1=1.2, sel=30.2,
                        offsets_lines=[0, 1, 2, 0], layout="view"),
@@ -395,7 +427,8 @@ def oracle_fs_sweep(ctx, base, fss=FS_DECADES):
     for method in base.get("methods", ("EFDD", "FSDD")):
         ref = None
         for fs in fss:
-            spec = dict(base, kind="fs-sweep", fs=fs, fn=base["fn_r"] * fs, DF1=base["DF1_r"] * fs, DF2=base["DF2_r"] * fs, sel=base["sel_r"] * fs)
+            spec = dict(base, kind="fs-sweep", fs=fs, fn=base["fn_r"] * fs, DF1=base["DF1_r"] * fs, DF2=base["DF2_r"] * fs, sel=base["sel_r"] * fs,
+                        readonly=RO_FORMS[list(fss).index(fs) % 3])
             assert in_envelope(fs, spec["nxseg"], spec["fn"], spec["xi"], spec["DF2"]), spec
             f, Sy, _, _ = build_sy(fs, spec["nxseg"], spec["fn"], spec["xi"], np.array(spec["phi"], float), spec["eps_rel"], spec["gain"])
             case = dict(spec, method=method)
@@ -572,11 +605,22 @@ def run_bell(ctx, rng):
             ctx.hist("bell", (method, "two-mode" if case["two"] else "rank-one", "cm%d" % cm, case["malformed"]))
             phi_in = np.array(phi)
             fr = Frozen(Sy=Sy_in, phi_FDD=phi_in)
-            try:
-                bell, ms = fdd.SDOF_bellandMS(Sy_in, dt, case["sel"], phi_in, method=method, cm=cm, MAClim=lim, DF=case["DF"])
-                got = np.asarray(bell, complex)
-            except Exception as e:  # noqa: BLE001
-                got = type(e).__name__
+            ro = RO_FORMS[k % 3]
+            cs["readonly"] = ro
+            for ro_try in ((ro, None) if ro else (None,)):
+                try:
+                    bell, ms = fdd.SDOF_bellandMS(present(Sy_in, ro_try), dt, case["sel"], present(phi_in, ro_try), method=method, cm=cm, MAClim=lim,
+                                                  DF=case["DF"])
+                    got = np.asarray(bell, complex)
+                except Exception as e:  # noqa: BLE001
+                    got = type(e).__name__
+                if ro_try and isinstance(got, str):
+                    first = got
+                    continue  # judge the writable presentation too: the exception must not depend on the write flag
+                if ro_try is None and ro and not isinstance(got, str):
+                    ctx.fail("oracle", "fdd.SDOF_bellandMS(%s) raises %s only because Sy / phi_FDD are read-only (%s); with writable arrays it returns the bell"
+                             % (method, first, ro), cs, key="C07:bell:readonly")
+                break
             if fr.changed():
                 ctx.fail("oracle", "fdd.SDOF_bellandMS(%s) modifies its input %s (memory layout %s)" % (method, "/".join(fr.changed()), layout), cs,
                          key="C07:bell:mutates-input")
@@ -667,8 +711,21 @@ def run_decay(ctx, rng):
         ctx.count(cs, nontrivial=cs["malformed"] is None)
         ctx.hist("decay", (cs["method"], cs["methodSy"], "sppk%d" % cs["sppk"], "npmax%d" % cs["npmax"], cs["malformed"]))
         ctx.sample(cs)
+        ro = RO_FORMS[k % 3]
+        if ro:  # the outcome (estimates or exception kind) must not depend on the write flag of Sy / freq
+            cs["readonly"] = ro
+            outs = []
+            for r_ in (ro, None):
+                try:
+                    o = fdd.EFDD_mpe(present(Sy, r_), present(f, r_), dt, [cs["sel"]], cs["methodSy"], method=cs["method"], DF1=cs["DF1"], DF2=cs["DF2"],
+                                     MAClim=lim, sppk=cs["sppk"], npmax=cs["npmax"])
+                    outs.append("ok")
+                except Exception as e:  # noqa: BLE001
+                    outs.append(type(e).__name__)
+            if outs[0] != outs[1]:
+                ctx.fail("oracle", "fdd.EFDD_mpe with read-only Sy / freq (%s): %s; with writable arrays: %s" % (ro, outs[0], outs[1]), cs, key="C07:mpe:readonly")
         try:
-            Fn, Xi, Phi, PP = fdd.EFDD_mpe(Sy, f, dt, [cs["sel"]], cs["methodSy"], method=cs["method"], DF1=cs["DF1"], DF2=cs["DF2"],
+            Fn, Xi, Phi, PP = fdd.EFDD_mpe(present(Sy, ro), present(f, ro), dt, [cs["sel"]], cs["methodSy"], method=cs["method"], DF1=cs["DF1"], DF2=cs["DF2"],
                                            MAClim=lim, sppk=cs["sppk"], npmax=cs["npmax"])
             got = dict(Fn=float(np.ravel(Fn)[0]), Xi=float(np.ravel(Xi)[0]), bell=np.asarray(PP[0][2]), norm=np.asarray(PP[0][5]),
                        idx=[int(i) for i in PP[0][6]], lam=float(np.ravel(PP[0][7])[0]), delta=np.asarray(PP[0][8], float),
@@ -779,9 +836,12 @@ def run_classes(ctx, rng):
                 ctx.fail("correspondence", "%s.run: spectral grid is not k*fs/nxseg, k=0..nxseg/2" % cls.__name__, case, key="C07:class:grid")
                 continue
             layout = LAYOUTS[k % 3]
-            alg.result.Sy = lay_out(Sy.astype(complex), layout)
+            ro = RO_FORMS[(k + (method == "FSDD")) % 3]
+            case["readonly"] = ro
+            laid, freq0 = lay_out(Sy.astype(complex), layout), np.array(alg.result.freq)
+            alg.result.Sy, alg.result.freq = present(laid, ro), present(freq0, ro)
             sel_in = [spec["sel"]]
-            fr = Frozen(Sy=alg.result.Sy, freq=alg.result.freq)
+            fr = Frozen(Sy=laid, freq=freq0)
             try:
                 ss.mpe("a", sel_freq=sel_in, DF1=spec["DF1"], DF2=spec["DF2"])
                 r = alg.result
@@ -797,7 +857,8 @@ def run_classes(ctx, rng):
                 Fnc, Xic, m = float(r.Fn[0]), float(r.Xi[0]), mac(r.Phi[:, 0], phi)
                 bell = np.asarray(r.forPlot[0][2])
             except Exception as e:  # noqa: BLE001
-                ctx.fail("oracle", "%s.mpe raised %s inside the property's envelope" % (cls.__name__, type(e).__name__), case, key="C07:class:raises")
+                ctx.fail("oracle", "%s.mpe raised %s: %s - inside the property's envelope%s" % (cls.__name__, type(e).__name__, str(e)[:80], ro_note(case)), case,
+                         key="C07:class:raises")
                 continue
             if not same:
                 ctx.fail("correspondence", "%s.mpe result is not fdd.EFDD_mpe(result.Sy, result.freq, dt, sel, method_SD, method=%s)" % (cls.__name__, method),
@@ -819,7 +880,9 @@ def run_classes(ctx, rng):
             if not in_envelope(fs, nxseg, fn2, xi2, spec2["DF2"]):
                 continue
             _, Sy2, _, _ = build_sy(fs, nxseg, fn2, xi2, phi[::-1], spec["eps_rel"], spec["gain"] * 3.0)
-            alg.result.Sy[...] = Sy2
+            if ro == "broadcast":  # a broadcast presentation does not share the buffer being refilled
+                alg.result.Sy = laid
+            laid[...] = Sy2
             case2 = dict(spec2, kind="class-refill", cls=cls.__name__, first=spec)
             ctx.count(case2, nontrivial=True)
             try:
@@ -834,7 +897,7 @@ def run_classes(ctx, rng):
                     cls.__name__, Fnc, fn2, Xic, xi2, m), case2, key="C07:class:refill-%s" % method)
 
 
-def _make_alg(cls, data, fs, nxseg, Sy, f):
+def _make_alg(cls, data, fs, nxseg, Sy, f, ro=None):
     from pyoma2.setup import SingleSetup
 
     ss = SingleSetup(data.copy(), fs=fs)
@@ -842,7 +905,9 @@ def _make_alg(cls, data, fs, nxseg, Sy, f):
     ss.add_algorithms(alg)
     ss.run_by_name("a")
     assert alg.result.Sy.shape == Sy.shape and np.allclose(alg.result.freq, f, rtol=1e-12, atol=0)
-    alg.result.Sy = Sy.astype(complex)
+    # run_params.nxseg is the segment length the injected matrix was built for: result.Sy has nxseg // 2 + 1 lines
+    assert alg.run_params.nxseg == nxseg and Sy.shape[2] == nxseg // 2 + 1
+    alg.result.Sy, alg.result.freq = present(Sy.astype(complex), ro), present(np.array(alg.result.freq), ro)
     return ss, alg
 
 
@@ -872,10 +937,11 @@ def oracle_class_sequence(ctx, seq):
             ctx.fail("oracle", "%s.mpe(sel_freq) with default arguments raised %s inside the property's envelope" % (cls.__name__, type(e).__name__),
                      base, key="C07:class-seq:raises")
             continue
-        for steps in seq["sequences"]:
-            ss, alg = _make_alg(cls, data, fs, nxseg, Sy, f)
+        for si, steps in enumerate(seq["sequences"]):
+            ro = RO_FORMS[(si + (cls is FSDD)) % 3]
+            ss, alg = _make_alg(cls, data, fs, nxseg, Sy, f, ro)
             for i, kw in enumerate(steps):
-                case = dict(base, steps=steps[: i + 1], step=i)
+                case = dict(base, steps=steps[: i + 1], step=i, readonly=ro)
                 ctx.count(case, nontrivial=i > 0)
                 ctx.hist("oracle class sequence", "%s step %d %s" % (cls.__name__, i, "defaults" if not kw else "explicit"))
                 try:
@@ -883,8 +949,8 @@ def oracle_class_sequence(ctx, seq):
                     Fn, Xi, Phi = np.array(alg.result.Fn, float), np.array(alg.result.Xi, float), np.array(alg.result.Phi)
                 except Exception as e:  # noqa: BLE001
                     if not kw:
-                        ctx.fail("oracle", "%s.mpe with default arguments raised %s after the calls %r on the same object" % (
-                            cls.__name__, type(e).__name__, steps[:i]), case, key="C07:class-seq:raises")
+                        ctx.fail("oracle", "%s.mpe with default arguments raised %s: %s - after the calls %r on the same object%s" % (
+                            cls.__name__, type(e).__name__, str(e)[:80], steps[:i], ro_note(case)), case, key="C07:class-seq:raises")
                     continue
                 if kw:
                     continue  # explicit non-default parameters: legal, outside the "default sppk/npmax/MAClim" clause
